@@ -805,6 +805,68 @@ def p_default_scalar(ev, st, ctx):
     return T.const(0, ev.scalar_width(ctx.dest_ty))
 
 
+# ================================================================ operators on references to integers (forwarding impls)
+# `&a >> b`, `a ^ &b`, `*x + &y` ... resolve to core's forward_ref impls, which call the by-value operator; that operator inherits
+# the caller's overflow checks (#[rustc_inherit_overflow_checks]).
+_INT = r"&?(?:'\w+ )?[iu](8|16|32|64|128|size)"
+
+
+def _ref_op(tr, m):
+    return "re:<%s as core::ops::%s<%s>>::%s" % (_INT, tr, _INT, m)
+
+
+def _signed_callee(ctx):
+    import re as _re
+    m_ = _re.match(r"<&?(?:'\w+ )?([iu])", ctx.callee.get("rpath") or ctx.callee.get("path") or "")
+    return bool(m_) and m_.group(1) == "i"
+
+
+for _tr, _m, _fn in (("BitXor", "bitxor", T.xor), ("BitAnd", "bitand", T.band), ("BitOr", "bitor", T.bor)):
+    prim(_ref_op(_tr, _m))((lambda fn_: (lambda ev, st, ctx: fn_(_argT(ev, st, ctx.args[0]), _argT(ev, st, ctx.args[1]))))(_fn))
+
+
+def _ref_arith(base, fn_):
+    def h(ev, st, ctx):
+        a, b = _argT(ev, st, ctx.args[0]), _argT(ev, st, ctx.args[1])
+        if ev.crate.get("overflow_checks"):
+            precondition(ev, st, ctx, "%s without overflow" % base.lower(), T.bnot(overflow_flag(ev, st, base, a, b, _signed_callee(ctx))))
+        return fn_(a, b)
+    return h
+
+
+prim(_ref_op("Add", "add"))(_ref_arith("Add", T.add))
+prim(_ref_op("Sub", "sub"))(_ref_arith("Sub", T.sub))
+prim(_ref_op("Mul", "mul"))(_ref_arith("Mul", T.mul))
+
+
+def _ref_shift(left):
+    def h(ev, st, ctx):
+        a, k = _argT(ev, st, ctx.args[0]), _argT(ev, st, ctx.args[1])
+        kk = T.zext(k, 64) if k.w < 64 else k
+        if ev.crate.get("overflow_checks"):
+            precondition(ev, st, ctx, "shift amount < %d" % a.w, T.ult(kk, T.const(a.w, kk.w)))
+        if k.op == "const":
+            n = k.aux & (a.w - 1)
+            if left:
+                return T.shl(a, n)
+            return T.ashr(a, n) if _signed_callee(ctx) else T.lshr(a, n)
+        if _signed_callee(ctx) and not left:
+            raise Unsupported("arithmetic shift of a reference by a variable amount")
+        amt = T.and_const(k, a.w - 1)
+        amt = T.trunc(amt, a.w) if amt.w > a.w else T.zext(amt, a.w)
+        return T.shl_var(a, amt) if left else T.lshr_var(a, amt)
+    return h
+
+
+prim(_ref_op("Shl", "shl"))(_ref_shift(True))
+prim(_ref_op("Shr", "shr"))(_ref_shift(False))
+
+
+@prim("re:<&?(?:'\\w+ )?[iu](8|16|32|64|128|size) as core::ops::Not>::not")
+def p_ref_not(ev, st, ctx):
+    return T.bnot(_argT(ev, st, ctx.args[0]))
+
+
 # ================================================================ Wrapping<T>
 # Wrapping<T> is a single-field struct and therefore transparent: its values are plain scalars.
 
